@@ -320,25 +320,46 @@ def g1_captured_state(ctx: Ctx):
                 kinds |= {dotted(p.cls) or '' for p in ast.walk(c.pattern) if isinstance(p, ast.MatchClass)}
     if not kinds:
         raise ShapeError('to_value: no container arm found')
-    for lp in loops:
-        tt = norm(lp, 4000)
-        refreshed = 'fn.__globals__[name] = to_value(func.env[name])' in tt
-        parents = parent_map(ev)
+    # the captured containers are converted afresh for this call: a mapping built from `func.ast.free_vars`
+    comps = [s for s in walk_no_nested(ev) if isinstance(s, ast.Assign) and isinstance(s.value, ast.DictComp)
+             and any(norm(g.iter) == 'func.ast.free_vars' for g in s.value.generators)]
+    parents = parent_map(ev)
+    fresh_name = None
+    for st in comps:
+        dc = st.value
+        refreshed = isinstance(dc.value, ast.Call) and call_name(dc.value) == 'to_value' and 'func.env[' in norm(dc.value)
+        gs = [norm(g) for g, arm in guards_of(ev, st, parents)]
         # must not be conditional on `convert` or on a cache miss
-        gs = [norm(g) for g, arm in guards_of(ev, lp, parents)]
         refreshed = refreshed and not any('convert' in g or 'func_cache' in g for g in gs)
-        # inside the loop the refresh is unconditional, or guarded by an isinstance test that names every container kind
-        stores = [s for s in ast.walk(lp) if isinstance(s, ast.Assign) and norm(s.targets[0]) == 'fn.__globals__[name]']
-        for st in stores:
-            inner = [g for g, arm in guards_of(lp, st, parent_map(lp))]
-            for g in inner:
-                named: set[str] = set()
-                if isinstance(g, ast.Call) and call_name(g) == 'isinstance' and len(g.args) == 2:
-                    named = {n.id for n in ast.walk(g.args[1]) if isinstance(n, ast.Name)}
-                covered = kinds <= named
-                ctx.check(covered, BYTE, g, 'BytecodeInterpreter.eval', f'the per-call refresh covers every container kind a captured value can be ({sorted(kinds)})',
-                          f'guard `{norm(g)}` leaves {sorted(kinds - named)} unrefreshed: a store into a list held by a captured {sorted(kinds - named)[0] if kinds - named else "?"} persists across calls')
-                refreshed = refreshed and covered
+        for g in [f for gen in dc.generators for f in gen.ifs]:
+            named: set[str] = set()
+            if isinstance(g, ast.Call) and call_name(g) == 'isinstance' and len(g.args) == 2:
+                named = {n.id for n in ast.walk(g.args[1]) if isinstance(n, ast.Name)}
+            covered = kinds <= named
+            ctx.check(covered, BYTE, g, 'BytecodeInterpreter.eval', f'the per-call refresh covers every container kind a captured value can be ({sorted(kinds)})',
+                      f'filter `{norm(g)}` leaves {sorted(kinds - named)} unrefreshed: a store into a list held by a captured {sorted(kinds - named)[0] if kinds - named else "?"} persists across calls')
+            refreshed = refreshed and covered
+        if refreshed and isinstance(st.targets[0], ast.Name):
+            fresh_name = st.targets[0].id
+    # ... and the call runs in a namespace of its own holding them: the shared (cached) namespace is never written, and
+    # the function object that is called is a new one over `{**fn.__globals__, **<fresh>}`
+    shared_writes = [s for s in ast.walk(ev) if isinstance(s, (ast.Assign, ast.AugAssign)) and any('__globals__' in norm(t) for t in (s.targets if isinstance(s, ast.Assign) else [s.target]))]
+    ctx.check(not shared_writes, BYTE, shared_writes[0] if shared_writes else ev, 'BytecodeInterpreter.eval', 'an evaluation never writes the namespace of the cached compiled function',
+              'the captured lists of one evaluation are placed where every other evaluation of the function reads them: nested through a primitive, or on two threads, '
+              'f(x): TBL[0] = x; y = hook(x); return TBL[0] + y returns 105 for x = 5 when hook evaluates f(100) in between')
+    own_ns = False
+    if fresh_name is not None:
+        for k in calls_in(ev):
+            if call_name(k) in ('types.FunctionType', 'FunctionType') and len(k.args) >= 2 and norm(k.args[0]) == 'fn.__code__' and isinstance(k.args[1], ast.Dict):
+                spreads = [norm(v) for kk, v in zip(k.args[1].keys, k.args[1].values) if kk is None]
+                # built whenever there is something captured (and under no other condition), and it is what gets called
+                gs = [norm(g) for g, arm in guards_of(ev, k, parents) if arm in ('then', 'else')]
+                holder = next((s for s in ast.walk(ev) if isinstance(s, ast.Assign) and s.value is k and isinstance(s.targets[0], ast.Name)), None)
+                rebound = holder is not None and any(isinstance(s, ast.Assign) and norm(s) == f'fn = {holder.targets[0].id}' for s in ast.walk(ev))
+                own_ns = spreads == ['fn.__globals__', fresh_name] and gs in ([], [fresh_name]) and rebound
+    kw = any(isinstance(s, ast.Assign) and norm(s) == 'call.__kwdefaults__ = fn.__kwdefaults__' for s in ast.walk(ev))
+    ctx.check(refreshed and own_ns and kw, BYTE, ev, 'BytecodeInterpreter.eval', 'a call that captures containers runs as a new function object over its own copy of the namespace, with the fresh containers on top',
+              'not found: evaluations of one function share its captured lists')
     # alternative: the front end rejects stores into captured variables
     sc = repo.func('fpy2/analysis/syntax_check.py', 'SyntaxCheckInstance._visit_indexed_assign')
     rejects = any(isinstance(s, ast.If) and 'free_vars' in norm(s.test) and any(isinstance(b, ast.Raise) for b in s.body) for s in walk_no_nested(sc))
@@ -391,7 +412,7 @@ RULES = [
 from ..selftest import Mutant  # noqa: E402
 
 MUTANTS = [
-    Mutant('captured-tuples-not-refreshed', BYTE, "            if isinstance(fn.__globals__.get(name), list | tuple):", "            if isinstance(fn.__globals__.get(name), list):", 'C18.G1',
+    Mutant('captured-tuples-not-refreshed', BYTE, "            if isinstance(fn.__globals__.get(str(var)), list | tuple)", "            if isinstance(fn.__globals__.get(str(var)), list)", 'C18.G1',
            'seeded change C18a: a store into a list held by a captured tuple survives the call'),
     Mutant('active-context-in-global', BYTE, "        ctx = self._func_ctx(func.ast, ctx)\n        if convert:", "        global _ACTIVE_CTX\n        _ACTIVE_CTX = ctx = self._func_ctx(func.ast, ctx)\n        if convert:", 'C18.E1'),
     Mutant('engine-registered-lazily', 'fpy2/ops.py', "def _normalize(x: Float | Fraction, ctx: Context, args: tuple[Float | Fraction, ...] = ()):\n", "def _normalize(x: Float | Fraction, ctx: Context, args: tuple[Float | Fraction, ...] = ()):\n    from .number.engine import register_engine, RealEngine\n    register_engine(RealEngine.instance())\n", 'C18.E1'),
@@ -410,8 +431,13 @@ MUTANTS = [
            'same table, another spelling', expect='silent'),
     Mutant('result-shared', VALUE, "    if isinstance(x, list | tuple):\n        # always a fresh container: the value may be one the interpreter keeps\n        # (a captured list in a cached namespace), and the caller is free to\n        # mutate what it is handed\n        return _cvt_boundary(x)\n", "", 'C18.P1',
            'the defect repaired by the fix: commit'),
-    Mutant('captured-list-kept', BYTE, "            if isinstance(fn.__globals__.get(name), list | tuple):\n                fn.__globals__[name] = to_value(func.env[name])", "            pass", 'C18.G1', 'the defect repaired by the fix: commit'),
-    Mutant('captured-list-refreshed-only-at-boundary', BYTE, "        for var in func.ast.free_vars:\n            name = str(var)\n            if isinstance(fn.__globals__.get(name), list | tuple):\n                fn.__globals__[name] = to_value(func.env[name])",
-           "        for var in (func.ast.free_vars if convert else ()):\n            name = str(var)\n            if isinstance(fn.__globals__.get(name), list | tuple):\n                fn.__globals__[name] = to_value(func.env[name])", 'C18.G1'),
+    Mutant('captured-list-kept', BYTE, "        if captured:\n            call = types.FunctionType(", "        if False:\n            call = types.FunctionType(", 'C18.G1',
+           'finding F15 before its repair (in the shape of the current code): the cached namespace keeps what the last call stored'),
+    Mutant('captured-list-refreshed-in-the-shared-namespace', BYTE, "        if captured:\n            call = types.FunctionType(\n                fn.__code__, {**fn.__globals__, **captured},\n                fn.__name__, fn.__defaults__, fn.__closure__,\n            )\n            call.__kwdefaults__ = fn.__kwdefaults__\n            fn = call\n",
+           "        for name, value in captured.items():\n            fn.__globals__[name] = value\n", 'C18.G1',
+           'finding F64 before its repair: every evaluation of the function under way sees the same lists'),
+    Mutant('captured-list-refreshed-only-at-boundary', BYTE, "            for var in func.ast.free_vars\n            if isinstance(fn.__globals__.get(str(var)), list | tuple)\n        }",
+           "            for var in func.ast.free_vars\n            if isinstance(fn.__globals__.get(str(var)), list | tuple)\n        } if convert else {}", 'C18.G1'),
+    Mutant('own-namespace-without-the-fresh-lists', BYTE, "                fn.__code__, {**fn.__globals__, **captured},", "                fn.__code__, {**fn.__globals__},", 'C18.G1'),
     Mutant('mpfr-precision-set-globally', GMPUTILS, "    with gmp.context(\n        precision=prec,", "    gmp.get_context().precision = prec\n    with gmp.context(\n        precision=prec,", 'C18.G1'),
 ]
